@@ -697,6 +697,46 @@ theorem Bad.filterM_conj_only_not_adjoint :
     fun a _ => if a = false then 1 else 0, ?_⟩
   simp [filterMX, fmSynthesisX, fmAnalysisX, sumRange]
 
+/-- **A matrix-valued field is filtered column by column**: `filterMXM` (run by the driver op
+`C02 filtermm`, compared with `FourierFilter.forward/backward` on fields of tensor shape `(2, ncol)`)
+applied to `X` gives, in column `c`, the vector-field filter `filterMX` of column `c` of `X` — for
+the forward and for the adjoint transfer function alike (any `D`). -/
+theorem filterM_matrix_field_columns (n M : ℕ) (P F : ℕ → ℕ → ℂ) (cinv : ℂ)
+    (D : ℕ → Bool → Bool → ℂ) (X : Bool → ℕ → ℕ → ℂ) (a : Bool) (c i : ℕ) :
+    filterMXM n M P F (starRingEnd ℂ) cinv D X a c i
+      = filterMX n M P F (starRingEnd ℂ) cinv D (fun b => X b c) a i :=
+  filterMXM_eq_columns n M P F (starRingEnd ℂ) cinv D X a c i
+
+/-- **FourierFilter with a matrix transfer function on a matrix-valued field: `backward` is the
+adjoint of `forward`** in the Frobenius inner product over rows, columns and samples, for any number
+of columns `ncol`: the adjoint applies `field_conjugate_transpose(D)` *from the left* (`fmCtrX`). -/
+theorem filterM_adjoint_matrix_field (n M ncol : ℕ) (P F : ℕ → ℕ → ℂ) (c : ℂ) (hc : conj c = c)
+    (D : ℕ → Bool → Bool → ℂ) (X Y : Bool → ℕ → ℕ → ℂ) :
+    ∑ a, ∑ k ∈ range ncol, ∑ i ∈ range n, conj (Y a k i) * filterMXM n M P F (starRingEnd ℂ) c⁻¹ D X a k i
+      = ∑ a, ∑ k ∈ range ncol, ∑ i ∈ range n,
+          conj (filterMXM n M P F (starRingEnd ℂ) c⁻¹ (fmCtrX (starRingEnd ℂ) D) Y a k i) * X a k i :=
+  filterMXM_adjoint n M ncol P F c hc D X Y
+
+/-- what `field_dot(f.conj(), tf).conj()` computes on a 2×2 matrix field at one sample:
+`Y · conj(D)` — the entry-wise conjugate applied **from the right** -/
+def Bad.rightConj (D : Bool → Bool → ℂ) (Y : Bool → Bool → ℂ) (a k : Bool) : ℂ :=
+  Y a false * conj (D false k) + Y a true * conj (D true k)
+
+/-- Evaluating the adjoint of the matrix branch as `(fᴴ·T)ᴴ` with a plain entry-wise conjugate
+(`Bad.rightConj`, correct for vector fields) is **not** the adjoint on a matrix-valued field:
+`n = M = 1`, `P = F = c = 1`, `D = [[0,1],[0,0]]`, `X = e₁₀`, `Y = e₀₀` gives `⟨Y, D·X⟩ = 1` but
+`⟨Y·conj D, X⟩ = 0`. -/
+theorem Bad.filterM_right_conj_not_adjoint :
+    ∃ (D : ℕ → Bool → Bool → ℂ) (X Y : Bool → ℕ → ℕ → ℂ),
+      ∑ a, ∑ k ∈ range 2, ∑ i ∈ range 1,
+          conj (Y a k i) * filterMXM 1 1 (fun _ _ => 1) (fun _ _ => 1) (starRingEnd ℂ) 1⁻¹ D X a k i
+        ≠ ∑ a, ∑ k ∈ range 2, ∑ i ∈ range 1,
+            conj (Bad.rightConj (D 0) (fun a' k' => Y a' k'.toNat 0) a (k == 1)) * X a k i := by
+  refine ⟨fun _ a b => if a = false ∧ b = true then 1 else 0,
+    fun b k _ => if b = true ∧ k = 0 then 1 else 0,
+    fun a k _ => if a = false ∧ k = 0 then 1 else 0, ?_⟩
+  simp [filterMXM, fmSynthesisX, fmAnalysisX, sumRange, Bad.rightConj, Finset.sum_range_succ]
+
 /-- satisfiability of the hypothesis of `filterM_adjoint`: the DFT normalisation `c = M` is real -/
 example (M : ℕ) : conj (M : ℂ) = (M : ℂ) := Complex.conj_natCast M
 
